@@ -113,7 +113,23 @@ var modelCorpus = []reflect.Type{
 	reflect.TypeOf(map[int32]float64(nil)),
 }
 
-var oracleCorpus = []reflect.Type{reflect.TypeOf(Emb{}), reflect.TypeOf([]Emb(nil)), reflect.TypeOf(map[string]*Emb(nil)), reflect.TypeOf(MyBytes(nil))}
+// fields beyond byte offset 64K (after a large array) and inside an embedded struct placed there
+type FarBase struct {
+	FB int16
+	FS string
+}
+type Far struct {
+	Pad [66000]byte
+	N   int32
+	S   string
+	L   []int16
+	P   *int
+	FarBase
+	M map[string]int8
+}
+
+var oracleCorpus = []reflect.Type{reflect.TypeOf(Emb{}), reflect.TypeOf([]Emb(nil)), reflect.TypeOf(map[string]*Emb(nil)), reflect.TypeOf(MyBytes(nil)),
+	reflect.TypeOf(Far{}), reflect.TypeOf((*Far)(nil))}
 
 // ---- options ----
 
